@@ -4,6 +4,7 @@ import SqliteDissect.Model.Header
 import SqliteDissect.Spec.CellFmt
 import SqliteDissect.Spec.HeaderFmt
 import SqliteDissect.Spec.CellWrite
+import SqliteDissect.Spec.HeaderStep
 
 namespace Driver.Arith
 open SqliteDissect SqliteDissect.Model Driver
@@ -59,6 +60,14 @@ def handle : List String → Option String
   | ["spec.hdr.valid", hex] => do
       let l ← parseHex hex
       pure s!"{Spec.validDbHeader l} {Spec.sqliteWritesDbHeader l}"
+  | ["spec.hdrstep", hexPrev, hexNext, cs, sm] => do
+      -- Spec.HeaderStep (executable form) on the headers of two consecutive versions
+      let a ← bufOfHex hexPrev
+      let b ← bufOfHex hexNext
+      let cs ← cs.toNat?
+      pure (match parseDbHeader a, parseDbHeader b with
+        | .ok x, .ok y => if x = y then "ok same" else s!"ok {Spec.headerStepB x y cs (sm = "1")}"
+        | _, _ => "rejected")
   | ["hdr.wal", hex] => do
       let b ← bufOfHex hex
       pure (showPy (fun h => s!"m{h.magic},fv{h.formatVersion},ps{h.pageSize},cs{h.checkpointSeq},s1{h.salt1},s2{h.salt2},c1{h.checksum1},c2{h.checksum2}") (parseWalHeader b))
